@@ -4,7 +4,8 @@ from props._wf_common import TRUSTED, DROPPED
 PROP, LEVEL, ENGINE = "C04", "other", "jxvc"
 DESIGN_REF = "DESIGN.md section 3 C04"
 TECHNIQUE = ("deductive, value-universal/shape-bounded: power-series mode of the jaxpr interpreter (dt symbolic through a marker, exp/expm by their series in sqrt(dt), "
-             "exact Gaussian moments) on the real propagate(), _build_propagation_intermediates and _apply_trotprop, against exp(-dt(H-E)) written out on the Fock space")
+             "exact Gaussian moments) on the real propagate(), _build_propagation_intermediates and _apply_trotprop, against exp(-dt(H-E)) written out on the Fock space"
+             " Plus all-sizes obligations (kind proof): tensor normal forms with SYMBOLIC sizes of the same traced functions (engine B-T, DESIGN 2.3b).")
 EXPLANATION = ("all-sizes (proof): prop.const.allsizes[...] - mf_shifts, h0_prop and the exponent of exp_h1 of the real _build_propagation_intermediates are the mean-field-subtracted forms for ALL norb and nchol (DESIGN 2.3b). With EVERYTHING symbolic (walker, h0, h1 per spin, Cholesky matrices, the rdm1 of the mean-field shift, field values, a FREE force-bias vector, E_shift) and the "
                "trial callees replaced by their contracts, the real propagate() gives: importance function = exp(-sqrt(dt) shift_term + fb_term + dt(E_shift+h0_prop)) O'/O; theta = "
                "phase of exp(-sqrt(dt) shift_term) O'/O; and the exact Gaussian average of (importance function x propagated walker / new overlap) equals exp(-dt (H - E_shift))|phi>/O "
